@@ -173,3 +173,10 @@ package checks
 //@   ensures s.IsDead ==> len(problems) == 1
 //@   ensures s.IsDead ==> problems[0].Severity == Warning
 //@   ensures s.IsDead ==> problems[0].Summary == "dead code in query"
+
+// ---------------------------------------------------------------------------------------------
+// C18 (rule/link): the `uri` rewrite of a link block is a template over the rule's own annotation value, so whether
+// the rewritten text is a URL can only be known at lint time: building the request may fail, and the request must
+// not be used (its headers set) when it does.
+//@ func RuleLinkCheck.Check [C18]
+//@   safe nil-deref:Header
